@@ -29,7 +29,12 @@ CONSTANTS GPUs,        \* set of GPU numbers
           MCFrames,    \* MC only: [g -> set of page frame base addresses]
           FrameChunks, \* MC only: chunks per page frame
           MaxMig,      \* MC only: bound on migration requests
-          Serial       \* MC only: TRUE = the driver's discipline, one migration in flight globally
+          Serial,      \* MC only: TRUE = the driver's discipline, one migration in flight globally
+          Requesters,  \* MC only: the GPUs whose PMC receives migration requests
+          AcceptGuard  \* "handling": the next request is taken when isHandlingPageMigration is false (the code)
+                       \* "slot": ... when currentMigrationRequest is nil - a wrong guard kept as a named
+                       \*   deviation: the two differ exactly while a completion is stalled on a full control
+                       \*   port; MC_PMC_slot.cfg must find the counterexample (the environment reaches the window)
 
 VARIABLES
   \* ---- requester side of PMC g
@@ -93,14 +98,17 @@ EmptyInit(memory) ==
 \* processFromCtrlPort + processPageMigrationReqFromCtrlPort (same tick): take the next
 \* request only when no migration is being handled; split the page into chunks.
 AcceptMig(g) ==
-  /\ ~handling[g] /\ ctrlIn[g] # <<>>
+  /\ ctrlIn[g] # <<>>
+  /\ IF AcceptGuard = "slot" THEN cur[g] = NoReq ELSE ~handling[g]
   /\ LET r == Head(ctrlIn[g]) IN
      /\ ctrlIn'   = [ctrlIn   EXCEPT ![g] = Tail(@)]
      /\ cur'      = [cur      EXCEPT ![g] = r]
-     /\ handling' = [handling EXCEPT ![g] = TRUE]
-     /\ toPull'   = [toPull   EXCEPT ![g] = 0..(r.n - 1)]
-     /\ pending'  = [pending  EXCEPT ![g] = r.n]
      /\ accepted' = [accepted EXCEPT ![g] = Append(@, r)]
+     /\ IF handling[g]   \* only reachable with the "slot" guard: the request sits in the slot, unstarted
+        THEN UNCHANGED <<handling, toPull, pending>>
+        ELSE /\ handling' = [handling EXCEPT ![g] = TRUE]
+             /\ toPull'   = [toPull   EXCEPT ![g] = 0..(r.n - 1)]
+             /\ pending'  = [pending  EXCEPT ![g] = r.n]
   /\ UNCHANGED <<wmap, writeQ, toCtrl, ctrlOut, ownv, portv, envv, issued, done, usedIds, pullSrc, mem0>>
 
 \* sendMigrationReqToAnotherPMC: one DataPullReq for chunk c leaves through the remote port;
@@ -141,8 +149,9 @@ SendComplete(g) ==
   /\ ctrlOut'  = [ctrlOut  EXCEPT ![g] = Append(@, Head(toCtrl[g]))]
   /\ toCtrl'   = [toCtrl   EXCEPT ![g] = <<>>]
   /\ handling' = [handling EXCEPT ![g] = FALSE]
+  /\ cur'      = [cur      EXCEPT ![g] = NoReq]   \* the code clears the slot once more here
   /\ done'     = [done     EXCEPT ![g] = Append(@, Head(toCtrl[g]))]
-  /\ UNCHANGED <<ctrlIn, cur, toPull, wmap, pending, writeQ, ownv, portv, envv, issued, accepted, usedIds, pullSrc, mem0>>
+  /\ UNCHANGED <<ctrlIn, toPull, wmap, pending, writeQ, ownv, portv, envv, issued, accepted, usedIds, pullSrc, mem0>>
 
 \* ================================================================ owner role
 \* processFromOutside/handleDataPullReq + processReadPageReqFromAnotherPMC
@@ -250,7 +259,7 @@ NumIssued == Cardinality(AllIssued)
 MCEnvMig ==
   /\ NumIssued < MaxMig
   /\ Serial => ~Outstanding
-  /\ \E g \in GPUs, o \in GPUs, n \in 1..FrameChunks :
+  /\ \E g \in Requesters, o \in GPUs, n \in 1..FrameChunks :
        /\ o # g
        /\ \E sb \in MCFrames[o], db \in MCFrames[g] :
             /\ Stable(o, sb) /\ Fresh(g, db)
@@ -317,6 +326,14 @@ OneAtATime ==
   \A g \in GPUs : /\ Len(accepted[g]) = Len(done[g]) + (IF handling[g] THEN 1 ELSE 0)
                   /\ Len(toCtrl[g]) <= 1
                   /\ (pending[g] = -1) \/ (handling[g] /\ pending[g] >= 0)
+
+\* the window in which the two accept guards differ: a completion waits behind an undrained one while the
+\* next request already sits in the control port.  StalledWindow is only a reachability probe: the check
+\* requires TLC to find it reachable (MC_PMC_window.cfg: "invariant" ~StalledWindow must be violated).
+StalledWindow == \E g \in GPUs : toCtrl[g] # <<>> /\ Len(ctrlOut[g]) = PortCap /\ ctrlIn[g] # <<>>
+NoStalledWindow == ~StalledWindow
+\* ... and in that window nothing is taken from the control port
+StalledWindowOK == \A g \in GPUs : (toCtrl[g] # <<>>) => (handling[g] /\ cur[g] = NoReq)
 
 \* every returned chunk goes back to the PMC that asked for it
 RoutedBack ==
